@@ -100,7 +100,7 @@ def gen_history(rng):
             k += 1
         else:
             name = rng.choice(list(table))
-            pos = rng.choice(["start", "after-pipe", "after-semicolon", "after-and", "non-first-word", "start", "every-stage", "for-list"])
+            pos = rng.choice(["start", "after-pipe", "after-semicolon", "after-and", "non-first-word", "start", "every-stage", "for-list", "after-own-definition"])
             op = {"op": "use", "name": name, "pos": pos, "k": k, "args": [rng.choice(["u1", "-v", "w w"] + ([rng.choice(sorted(table))] if table else [])) for _ in range(rng.randint(0, 2))]}
             if pos == "for-list":
                 # the words of a `for` list are data: the first of them is not a command word either
@@ -165,6 +165,11 @@ def judge(case, roundtrip=True):
                 lines.append(mark)
                 lines.append("vp_a H%d && %s%s" % (k, name, argtxt))
                 exp = [("vp_a", ["H%d" % k])] + value_argvs(table[name], args)
+            elif op["pos"] == "after-own-definition":
+                # the definition (written again, with its quotes) and the use share one line, joined by ; or &&
+                lines.append(mark)
+                lines.append("%s %s %s%s" % (define_text(name, table[name]), ";" if k % 2 else "&&", name, argtxt))
+                exp = value_argvs(table[name], args)
             elif op["pos"] == "for-list":
                 lines.append(mark)
                 lines.append("for w in %s%s" % (name, argtxt))
@@ -289,7 +294,7 @@ def run(tier, seed):
     rep.rule = ("random histories (<=20 ops) of define / redefine / unalias / list / `alias n` / use over names from "
                 "[A-Za-z0-9_.-]+ (two of them also names of observer programs) and values with options, blanks quoted "
                 "with the other quote kind, a pipe, another alias name, or their own name; uses at line start, after |, "
-                "after ;, after &&, as a non-first word and as the first word of a `for` list; listings go to a file, a pipe or a "
+                "after ;, after &&, as a non-first word, as the first word of a `for` list and right behind their own definition on one line; listings go to a file, a pipe or a "
                 "command substitution; the final listing is fed to a fresh shell.  "
                 "Non-trivial = at least one use or listing; distinct by history.")
     rep.assumptions = ["alias-table model in lib/c17.py; expected argv = shell-split value + the remaining words"]
